@@ -77,6 +77,10 @@ CLAIMED = {
             "TLC enumerates commit graphs (root, linear, two new commits, side-branch merges, merge back of an ancestor, merge of unrelated history) over trees of three path atoms, every signer assignment and every rule extent, proves that the matcher as designed refines the declarative file rule and that a net change of a protected path is always vouched for by an authorised signer (and that the documented merge exemption is exactly what this needs as a proviso); a seeded sample is built with odd concrete path names (space, tab, quote, backslash, control, UTF-8, DEL, glob metacharacters) in real on-disk repositories, and TLC judges the verdict of the real verifier and what GetFilePathsChangedByCommit, GetAllFilesInTree, GetEntriesInTree, GetPathIDInTree and WriteTree returned for the written paths.",
             "File rules with threshold 1 (no approvals); newline excluded (as in the property); sampled, not exhaustive, on the real-Git side.",
             "DESIGN.md section 4 C10"),
+    "C18": ("Propagation.tla, MC_Propagation.tla, Trace_Propagation.tla",
+            "TLC explores every sequence of upstream commits, upstream revocations, downstream edits (outside and inside the downstream path) and propagation calls with one or two directives up to the bound, and proves that the algorithm as designed does what the declarative layer says (exact subtree, frame, entry names upstream location and entry, no-op when already there) and that repeating a call changes nothing; emitted sequences are replayed on pairs of real on-disk repositories with concrete, partly odd, path names and file modes, and TLC replays the model alongside and judges tree (path, blob, mode), commit count and propagation entries after every action.",
+            "Bare repositories; downstream/upstream path being a file not covered; the executable-bit / symlink loss is a recorded finding.",
+            "DESIGN.md section 4 C18"),
     "C19": ("Verify.tla (MergePredictI, MergeIdeal, MergeAgrees), MC_Verify.tla (family merge, C19Agrees), Trace_Verify.tla (Prop=C19)",
             "TLC enumerates policies with delegation thresholds 1..3 and a global threshold rule, approvals by every subset of principals bound to the predicted change, and feature trees, and proves that the ideal prediction agrees with verification of the merge for every recorder (authorised, already counted, unauthorised, unknown key, unsigned); on real repositories VerifyMergeableForCommit is asked, then every recorder records the merge on a copy and verifies it, and TLC judges the agreement and attributes disagreements to the listed deviations.",
             "Fast-forward merges only (the recorded commit carries the predicted tree); file rules and code-review approvals are not in the merge family yet.",
